@@ -141,6 +141,9 @@ func runC05(r *simrt.Run, tier Tier) Outcome {
 	o := DrawOpts(r)
 	o.NoCollect = false
 	prog := GenProgram(r, o)
+	// now and then a program without a stratification: it has to be refused
+	// under every presentation and iteration order
+	unstrat := r.OneIn(12, "c05.negative-cycle") && AddNegativeCycle(r, prog)
 	K := 6
 	if tier == Thorough {
 		K = 12
@@ -184,6 +187,12 @@ func runC05(r *simrt.Run, tier Tier) Outcome {
 			return Violation("C05/facts-differ", "%s and %s disagree\nonly in first: %v\nonly in second: %v\nprogram:\n%s\npresented:\n%s",
 				firstDesc, desc, a, b, src, v.Prog.Source(true))
 		}
+	}
+	if unstrat && first.Stage != "" {
+		// (whether such a program is refused at all is C03's subject; here only
+		// the agreement of all presentations is judged, above)
+		r.Probe("unstratifiable-program-refused-under-every-presentation")
+		return Outcome{Nontrivial: len(ordersSeen) >= 2, Sample: map[string]any{"program": strings.Split(strings.TrimSpace(src), "\n"), "refused": firstLine(first.Err.Error()), "evaluations": K}}
 	}
 	if first.Stage != "" {
 		return Outcome{Discard: "rejected:" + first.Stage, Sample: nil}
